@@ -198,3 +198,12 @@ package fieldmask
 //@   ensures result != nil ==> !result.IsTypedef()
 //@   ensures old(desc != nil && !desc.IsTypedef()) ==> result == old(desc)
 //@   loop 1 invariant old(!desc.IsTypedef()) ==> desc == old(desc)
+
+// ---- JSON transfer (serdes.go), first piece: a "*" node of the document becomes the shared all-child, decoded from
+// that same node (so a mask ending in '*' answers its key queries after a round trip as before it).
+//@ func (self *FieldMask) checkAll(s *fieldMaskTransfer) (bool, error)
+//@   requires self != nil && s != nil
+//@   ensures result0 ==> ncalls("self.all.TransferFrom") == 1 && callarg("self.all.TransferFrom", 0) == s && result1 == callret("self.all.TransferFrom", 0)
+//@   ensures !result0 ==> result1 == nil && ncalls("self.all.TransferFrom") == 0
+//@   site call:self.all.TransferFrom assert self.isAll && self.all != nil && self.all.typ == 0 && !self.all.isAll
+//@   modifies *
